@@ -198,7 +198,7 @@ def rule_terminate_or_fail(rep, prog, rule, allowed=None, report_all=False):
     seen_allowed = set()
     owning_locals = 0
     for body in prog.bodies.values():
-        if body.kind in ("const", "static"):
+        if body.kind in ("const", "static", "promoted"):
             continue
         nbodies += 1
         cands = candidate_drops(prog, body, leafs, memo_by_params)
